@@ -150,22 +150,24 @@ example :
     (r.1.state, r.1.n, r.1.cutoff, r.1.slots.length, r.2.clean) = ([true, true, false], 5, 8, 5, true) := by
   decide +kernel
 
-/-- one whole generic `timestep` evaluated on a step RECORDED FROM THE REAL CODE (`fullstep generic`, seed 1):
-three variables, two constant terms on variable 2 (gate open), loop updates on, heat bath on (table built
-lazily), β = 1/2, cutoff 4 with a container of length 2 (padded by the sweep), state 101; the 12 words the real
-`Qmc::timestep` consumed are consumed exactly and the model lands on the real result: one operator left at
-p = 0, state 011, cutoff 4 -/
-def cOp : Op := ⟨[2], 0, [true], [true], true, true⟩
+/-- one whole generic `timestep` evaluated on a step RECORDED FROM THE REAL CODE (`fullstep generic`, seed 1,
+/repo at 7073632 = after the fix F22 of the loop start): one variable, three constant terms on it (gate open),
+loop updates on, Metropolis sweep, β = 9/4, cutoff 4 with a container of length 2 (padded by the sweep), state 1;
+the sweep removes both operators and inserts two new ones at p = 2, 3; the loop update (start = ONE `gen_range` over
+all variable slots + the side draw), the cluster update and the refresh follow; the 10 words the real
+`Qmc::timestep` consumed are consumed exactly and the model lands on the real result -/
+def kOp (b : Nat) : Op := ⟨[0], b, [true], [true], true, true⟩
 def exG : GenericSampler :=
-  { ((((GenericSampler.new [true, false, true] true).addInteraction ⟨true, [2], [1 / 4, 1 / 4, 1 / 4, 1 / 4]⟩).addInteraction
-      ⟨true, [2], [1 / 8, 1 / 8, 1 / 8, 1 / 8]⟩).setDoHeatbath true) with cutoff := 4, slots := [some cOp, some cOp] }
+  { (((GenericSampler.new [true] true).addInteraction ⟨true, [0], [7 / 8, 7 / 8, 7 / 8, 7 / 8]⟩).addInteraction
+      ⟨true, [0], [5 / 4, 5 / 4, 5 / 4, 5 / 4]⟩).addInteraction ⟨true, [0], [1 / 2, 1 / 2, 1 / 2, 1 / 2]⟩ with
+    cutoff := 4, slots := [some (kOp 1), some (kOp 0)] }
 
 example :
-    let r := genericTimestep exG (1 / 2) (RS.ofScript [17770484352260803726, 6818170788657771452,
-      1683874812918991772, 1519072927692523365, 9331438866647184158, 8630483213357381467, 4970367349851958993,
-      2248701630887485141, 14958043124778120124, 10753747463847328595, 14770045829949128471, 378505029728834430])
-    (r.1.slots, r.1.state, r.1.n, r.1.cutoff, exG.shouldCluster, r.2.clean, r.1.table.isSome)
-      = ([some cOp, none, none, none], [false, true, true], 1, 4, true, true, true) := by
+    let r := genericTimestep exG (9 / 4) (RS.ofScript [2578569419177895307, 2332731059678247252,
+      8145825333725946663, 1622802237492031095, 4885187703429084985, 925293710385445914, 6816487346238253227,
+      12074712245488097304, 10282180754580391475, 9229076234412414734])
+    (r.1.slots, r.1.state, r.1.n, r.1.cutoff, exG.doLoop, exG.shouldCluster, r.2.clean)
+      = ([none, none, some (kOp 1), some (kOp 0)], [true], 2, 4, true, true, true) := by
   decide +kernel
 
 end Example
